@@ -102,14 +102,14 @@ Proof.
   split; [reflexivity|]. split; [reflexivity|]. split; [exact I|]. split; [exact I|].
   unfold layers_ok. simpl. split.
   { split; [reflexivity|]. repeat constructor. simpl. intros H. apply (f_equal (@List.length N)) in H. discriminate. }
-  split. { apply NoDup_str2. reflexivity. }
+  split. { apply nodupb_iff; vm_compute; reflexivity. }
   split.
   { constructor; [|constructor; [|constructor]].
     - split; [triv_dict|]. split; [intros; exact I|]. split; [exact I|].
-      split; [apply NoDup_str2; reflexivity|].
+      split; [apply nodupb_iff; vm_compute; reflexivity|].
       constructor; [split; [exact I|reflexivity]|]. constructor; [split; [exact I|reflexivity]|constructor].
     - split; [triv_dict|]. split; [intros; exact I|]. split; [exact I|]. split; constructor. }
-  split; [exact I|]. split; [apply NoDup_str2; reflexivity|].
+  split; [exact I|]. split; [apply nodupb_iff; vm_compute; reflexivity|].
   constructor; [intros _; reflexivity|]. constructor; [|constructor].
   simpl. intros H. apply (f_equal (@List.length N)) in H. discriminate.
 Qed.
@@ -121,7 +121,7 @@ Proof.
   split; [constructor|]. split; [constructor|]. split; [triv_dict; discriminate|].
   split; [reflexivity|]. split; [reflexivity|]. split; [exact I|]. split; [exact I|].
   unfold layers_ok. simpl. split; [split; [reflexivity|constructor]|].
-  split; [repeat constructor; simpl; tauto|].
+  split; [apply nodupb_iff; vm_compute; reflexivity|].
   split.
   { constructor; [|constructor].
     split; [triv_dict; discriminate|]. split; [intros; discriminate|]. split; [exact I|]. split; constructor. }
@@ -158,6 +158,9 @@ Theorem duplicates_rejected :
   load toy_sig (toy_dup_tree [(s "x", GLYPHS); (s "x", s "glyphs.x")] []) = Err LDuplicateLayerName /\
   load toy_sig (toy_dup_tree [(s "x", GLYPHS); (DEFAULT_LAYER_NAME, s "glyphs.x")] []) = Err LReservedLayerName /\
   load toy_sig (toy_dup_tree [(s "x", GLYPHS)] [(s "a", s "a.glif"); (s "b", s "a.glif")]) = Err LDuplicateGlyphFile /\
+  (* compared without case (f6784f0) *)
+  load toy_sig (toy_dup_tree [(s "x", GLYPHS); (s "y", s "glyphs.X"); (s "z", s "glyphs.x")] []) = Err LDuplicateLayerDirectory /\
+  load toy_sig (toy_dup_tree [(s "x", GLYPHS)] [(s "a", s "a.glif"); (s "b", s "A.glif")]) = Err LDuplicateGlyphFile /\
   exists f, load toy_sig (toy_dup_tree [(s "y", s "glyphs.x"); (s "x", GLYPHS)] [(s "a", s "a.glif")]) = Ok f.
 Proof. repeat split; try (vm_compute; reflexivity). eexists. vm_compute. reflexivity. Qed.
 
